@@ -72,7 +72,8 @@ pub fn main(args: &[String]) {
                         // candidate for the known class `eviction-dependent-result`: excused only if the executable model, whose memo mechanism is fixed
                         // (key = production x position x in-directive flag; recursion flags and the version stack are not part of the key), reproduces the
                         // outcome at EVERY capacity — the driver runs the model on these lines and any difference is a violation
-                        rep.known("eviction-dependent-result", &what, text, "");
+                        if std::env::var("SVH_MEMO_INVENTORY_CHANGED").is_ok() { rep.violation(&format!("{} (the set of memoised / left-recursive productions differs from the pinned inventory, so this is not the known finding)", what), text, ""); }
+                        else { rep.known("eviction-dependent-result", &what, text, ""); }
                         for (c2, l2) in &lines {
                             capdep_cases.push(format!("parse {} {} {}", kind, match c2 { Some(n) => n.to_string(), None => "none".into() }, util::hex(text.as_bytes())));
                             capdep_impl.push(l2.split(' ').take(7).collect::<Vec<_>>().join(" "));
